@@ -26,6 +26,15 @@ def variants(r, v0):
         return v0[:i] + bytes([(v0[i] + 1) % 256 if v0[i] not in (9, 12) else 65]) + v0[i + 1:]
     if k == 8:
         return v0 + b"\n---"
+    if k == 9:
+        # the escape token / the terminator INSIDE a line (not a whole line)
+        if b"/-/-/-/" in v0:
+            return v0.replace(b"/-/-/-/", b"---", 1)
+        if b"---" in v0:
+            return v0.replace(b"---", b"/-/-/-/", 1)
+        return v0 + b"\nsee a/-/-/-/b"
+    if k == 10:
+        return (v0 + b"\nsee a---b") if b"a/-/-/-/b" not in v0 else v0.replace(b"a/-/-/-/b", b"a---b")
     return G.gen_text(r)
 
 
